@@ -36,6 +36,9 @@ func c09Scenarios(tier string) []*Scenario {
 	vs = append(vs, variant{kind: "tagged", cached: false, shards: 8, threads: 2}, variant{kind: "subscope", cached: true, shards: 8, threads: 2})
 	// (the kinds above alternate between the plain and the cached path by position; these two on the other path too)
 	vs = append(vs, variant{kind: "counter+gauge", cached: true, shards: 1, threads: 2}, variant{kind: "two-timers", cached: true, shards: 1, threads: 2})
+	// (round 12, C09-12a: an Allocate call moved in front of the lock of one kind only - every single kind on the cached path
+	// in the quick tier as well; counter and timer are there by position)
+	vs = append(vs, variant{kind: "histogram", cached: true, shards: 1, threads: 2}, variant{kind: "gauge", cached: true, shards: 1, threads: 2})
 	if tier == "thorough" {
 		for i, k := range kinds {
 			vs = append(vs, variant{kind: k, cached: i%2 == 1, shards: 2, threads: 2, onSub: true})
